@@ -1317,3 +1317,87 @@ theorem fresh_good_login (env : Env) (sub : Nat) (hsub : sub ≤ env.s.maxSubstr
   exact ⟨hcpl, hi.1, hi.2, fun p hp => by simp [resendsOf, Sys.fresh, a, Conn.new, Conn.login] at hp⟩
 
 end Nx.L1
+
+namespace Nx.L1
+open Nx Nx.Prudp Nx.Chan Nx.Crypto
+
+/-- what has to be true of two endpoints for the coupling with the initial channel `Chan.init start` to hold — observable facts
+    about the two connection objects, nothing else: the sender's counter of the substream is `start` and its cipher is at
+    position 0; the receiver's window of the substream expects `start` and is empty, its queue and fragment buffer are empty,
+    its cipher has the same key and is at position 0; same cipher switch; the receiver is live -/
+structure Established (sub start : Nat) (a b : Conn) : Prop where
+  lt : start < 65536
+  ctr : a.counters[sub]? = some start
+  akey : ∃ sa, a.relCiphers[sub]? = some sa ∧ sa.encPos = 0
+  bkey : ∃ sb, b.relCiphers[sub]? = some sb ∧ sb.decPos = 0
+  same : (a.relCiphers[sub]?).map StreamCipher.key = (b.relCiphers[sub]?).map StreamCipher.key
+  con : b.cipherOn = a.cipherOn
+  win : b.windows[sub]? = some { next := start, packets := [] }
+  q : b.queues[sub]? = some []
+  fb : b.fragBufs[sub]? = some []
+  live : b.eof = false ∧ b.linkUp = true
+  idle : resendsOf a = [] ∨ ∀ p ∈ resendsOf a, relevant sub p = false
+
+/-- **`Established` is enough**: two endpoints with these properties and the initial channel are coupled (and the channel
+    invariants hold), so every end-to-end theorem applies from there on -/
+theorem good_of_established (sub start : Nat) (a b : Conn) (h : Established sub start a b) :
+    Good sub (cipherOf a sub) a.fragmentSize start (Sys.fresh a b) (Chan.init start) := by
+  have hi := inv_init (cipherOf a sub) start h.lt
+  obtain ⟨sa, hsa, hea⟩ := h.akey
+  obtain ⟨sb, hsb, hdb⟩ := h.bkey
+  have hk : sa.key = sb.key := by
+    have := h.same; rw [hsa, hsb] at this; simpa using this
+  have hcpl : Cpl sub (cipherOf a sub) a.fragmentSize (Sys.fresh a b) (Chan.init start) :=
+    { size := rfl
+      srel := ⟨h.ctr, sa, hsa, fun _ => hea⟩
+      acipher := rfl
+      log := rfl
+      netgood := fun p hp => by cases hp
+      netord := fun p hp => by cases hp
+      blink := h.live.2
+      beof := fun he => by have h1 : b.eof = true := he; rw [h.live.1] at h1; cases h1
+      sent := rfl
+      opn := fun _ => rfl
+      cln := rfl
+      pend := rfl
+      bwf := ⟨(List.getElem?_eq_some_iff.mp hsb).1, (List.getElem?_eq_some_iff.mp h.fb).1, (List.getElem?_eq_some_iff.mp h.q).1⟩
+      bwin := ⟨_, h.win, (fun kq hkq => by cases hkq), rfl⟩
+      rrel := ⟨h.live.1.symm, by show ([] : List Bytes) = (b.queues[sub]?).getD []; rw [h.q]; rfl,
+        fun _ => ⟨by show ([] : Bytes) = (b.fragBufs[sub]?).getD []; rw [h.fb]; rfl, fun _ => ⟨sb, hsb, hdb.symm⟩⟩⟩
+      bcipher := by
+        show cipherOf b sub = cipherOf a sub
+        simp only [cipherOf, hsa, hsb, Option.map, Option.getD, hk, h.con]
+      nrel := rfl }
+  refine ⟨hcpl, hi.1, hi.2, ?_⟩
+  intro p hp hr
+  have hp' : p ∈ resendsOf a := hp
+  rcases h.idle with h0 | h0
+  · rw [h0] at hp'; cases hp'
+  · rw [h0 p hp'] at hr; cases hr
+
+end Nx.L1
+
+namespace Nx.L1
+open Nx Nx.Prudp Nx.Chan Nx.Crypto
+
+/-- `Established`, as a Bool (for closed witnesses) -/
+def establishedB (sub start : Nat) (a b : Conn) : Bool :=
+  decide (start < 65536) && (a.counters[sub]? == some start) &&
+  ((a.relCiphers[sub]?).map (·.encPos) == some 0) && ((b.relCiphers[sub]?).map (·.decPos) == some 0) &&
+  ((a.relCiphers[sub]?).map StreamCipher.key == (b.relCiphers[sub]?).map StreamCipher.key) && (b.cipherOn == a.cipherOn) &&
+  (b.windows[sub]? == some { next := start, packets := [] }) && (b.queues[sub]? == some []) && (b.fragBufs[sub]? == some []) &&
+  !b.eof && b.linkUp && (resendsOf a).all (fun p => !relevant sub p)
+
+theorem established_of_B (sub start : Nat) (a b : Conn) (h : establishedB sub start a b = true) : Established sub start a b := by
+  unfold establishedB at h
+  simp only [Bool.and_eq_true, decide_eq_true_eq, beq_iff_eq, Bool.not_eq_true', List.all_eq_true] at h
+  obtain ⟨⟨⟨⟨⟨⟨⟨⟨⟨⟨⟨h1, h2⟩, h3⟩, h4⟩, h5⟩, h6⟩, h7⟩, h8⟩, h9⟩, h10⟩, h11⟩, h12⟩ := h
+  refine ⟨h1, h2, ?_, ?_, h5, h6, h7, h8, h9, ⟨h10, h11⟩, Or.inr h12⟩
+  · cases ha : a.relCiphers[sub]? with
+    | none => rw [ha] at h3; cases h3
+    | some sa => rw [ha] at h3; exact ⟨sa, rfl, by simpa using h3⟩
+  · cases hb : b.relCiphers[sub]? with
+    | none => rw [hb] at h4; cases h4
+    | some sb => rw [hb] at h4; exact ⟨sb, rfl, by simpa using h4⟩
+
+end Nx.L1
